@@ -13,3 +13,5 @@ import PysamlModel.Props.C06
 #print axioms C06.shapeOk_of_verify
 #print axioms C06.C06_correlated_factory
 #print axioms C06.C06_shape_factory
+#print axioms C06.C06_encrypted_id_opened
+#print axioms C06.C06_reported_identifier
